@@ -1354,7 +1354,7 @@ theorem ofFn_good (r : FnResult)
 
 theorem stepTok_spec (T : Table) (hT : TableSafe T) (s : PState) (k : TokKind) (text : Bytes) (hinv : Inv s) :
     GoodStep (stepTok T s k text) := by
-  unfold stepTok admit
+  unfold stepTok admitTok
   cases hexp : s.expected with
   | none =>
     simp only
@@ -1394,7 +1394,7 @@ theorem calm_no_rewind (T : Table) (s : PState) (tok : Tok) (hc : Calm s) (s2 : 
     · simp at h
     · rename_i s1 hadm
       have hs1 : s1.stack = s.stack ∧ s1.cstate = s.cstate := by
-        unfold admit at hadm
+        unfold admitTok at hadm
         split at hadm
         · simp at hadm; subst hadm; exact ⟨rfl, rfl⟩
         · split at hadm
